@@ -282,6 +282,21 @@ func cmpKind(c *ast.CallExpr, where string) string {
 	return ""
 }
 
+func cmpKindOf(x ast.Expr, where string) string {
+	if sel, ok := x.(*ast.SelectorExpr); ok {
+		switch sel.Sel.Name {
+		case "insCmp":
+			return ".ins"
+		case "iterCmp":
+			return ".iter"
+		case "existCmp":
+			return ".exist"
+		}
+	}
+	die("%s: comparator expected, got `%s`", where, str(x))
+	return ""
+}
+
 func main() {
 	flag.StringVar(&repo, "repo", "/repo", "path of the couchbase/nitro working tree")
 	flag.Parse()
@@ -316,6 +331,15 @@ func main() {
 		emit("def skeleton_IteratorRefresh : List String := %s\n", skeleton(fn("iterator.go", "*Iterator", "Refresh")))
 		emit("def skeleton_IteratorSeek : List String := %s\n", skeleton(fn("iterator.go", "*Iterator", "Seek")))
 		emit("def skeleton_IteratorSeekFirst : List String := %s\n", skeleton(fn("iterator.go", "*Iterator", "SeekFirst")))
+		// comparator the snapshot iterator walks the store with (NewIterator and Refresh must agree)
+		c1 := callWith(fn("iterator.go", "*Nitro", "NewIterator"), `store\.NewIterator`, "NewIterator")
+		c2 := callWith(fn("iterator.go", "*Iterator", "Refresh"), `store\.NewIterator`, "Iterator.Refresh")
+		k1 := cmpKindOf(c1.Args[0], "NewIterator")
+		if k2 := cmpKindOf(c2.Args[0], "Iterator.Refresh"); k1 != k2 {
+			die("NewIterator and Refresh walk the store with different comparators (%s, %s)", k1, k2)
+		}
+		emit("-- iterator.go NewIterator / Refresh : comparator of the underlying skiplist iterator")
+		emit("def iteratorStoreCmp : CmpKind := %s\n", k1)
 	}
 	// ---- nitro.go comparators
 	{
